@@ -27,7 +27,7 @@ def cells_events(rec, nfl):
     k = R / 1024.0
     fsc = rng.normal(500, 70, n) * k
     ssc = rng.normal(400, 60, n) * k
-    fl = [rng.normal(300 + 120 * j, 70, n) * k for j in range(nfl)]
+    fl = [rng.normal(300 + 120 * (j % 5), 70, n) * k for j in range(nfl)]
     t = np.sort(rng.integers(0, R, n)).astype(float)
     if rec['datatype'] == 'I':
         # saturated events in scatter and fluorescence channels, inside the part that survives start_end
@@ -48,6 +48,11 @@ def cells_events(rec, nfl):
             fl[j][265:270] = [-5.0, 0.0, -0.5, -120.0, 0.0]
     fsc = np.clip(fsc, 1, None)
     ssc = np.clip(ssc, 1, None)
+    if n > 300 and rec['seed'] % 2 == 1:
+        # float files may hold (compensated) negative scatter values; how negative differs from file to file, and
+        # with it the logicle parameters derived from each file
+        fsc[290:292] = [-(1.0 + rec['seed'] % 97), -0.5]
+        ssc[292] = -(2.0 + rec['seed'] % 31)
     if n > 300 and rec['seed'] % 3 != 0:
         # float data may exceed the declared range: a few scatter events beyond $PnR-1
         fsc[280:283] = [R * 1.4, R * 2.0, R + 5.0]
@@ -152,7 +157,7 @@ def write_input(path, it, bt, stab):
 def instruments(draw, max_n=3):
     n = draw(st.sampled_from([k for k in (1, 2, 2, 3) if k <= max_n]))
     out = []
-    pools = [['FL1-H', 'FL2-H', 'FL3-H'], ['B530-A', 'Y585-A', 'V450-A'], ['GFP', 'mCherry', 'BFP']]
+    pools = [['FL1-H', 'FL2-H', 'FL3-H'], ['Pacific Blue-A', 'Y585-A', 'PE-Texas Red-A'], ['GFP', 'mCherry', 'BFP']]
     for k in range(n):
         nfl = draw(st.sampled_from([1, 2, 2, 3]))
         out.append(dict(id='I%d' % (k + 1), fsc=['FSC-H', 'FSC-A', 'FS'][k], ssc=['SSC-H', 'SSC-A', 'SS'][k],
